@@ -53,7 +53,7 @@ func (c *Contract) clauses(kind string) []*Clause {
 var reFuncDirective = regexp.MustCompile(`^func\s+(.+)$`)
 var reLoop = regexp.MustCompile(`^loop\s+(\d+)\s*:\s*(invariant|rangeinv|decreases|with)\s*(?:\[([A-Za-z0-9_\-]+)\])?\s+(.*)$`)
 var reAssert = regexp.MustCompile(`^(assert|lemma)\s+([A-Za-z0-9_\-]+)\s+before\s+"((?:[^"\\]|\\.)*)"\s*:\s*(.*)$`)
-var reClause = regexp.MustCompile(`^(requires|ensures|decreases|fmtwhen)\s*(?:\[([A-Za-z0-9_\-]+)\])?\s+(.*)$`)
+var reClause = regexp.MustCompile(`^(requires|ensures|decreases|fmtwhen|assumes)\s*(?:\[([A-Za-z0-9_\-]+)\])?\s+(.*)$`)
 
 func funcID(name string) string {
 	s := strings.NewReplacer("(*", "", "(", "", ")", "", ".", "_", "[", "_", "]", "_").Replace(name)
@@ -685,7 +685,7 @@ func (w *weaver) weave(c *Contract) {
 		}
 		switch cl.Kind {
 		case "with":
-		case "requires", "ensures", "decreases", "fmtwhen":
+		case "requires", "ensures", "decreases", "fmtwhen", "assumes":
 			if cl.Kind == "ensures" {
 				e2, err := rewriteOld(expr, ptrParams)
 				if err != nil {
@@ -698,7 +698,7 @@ func (w *weaver) weave(c *Contract) {
 				w.fail("%s: %v in %q", cl.Line, err, expr)
 				continue
 			}
-			short := map[string]string{"requires": "req", "ensures": "ens", "decreases": "dec", "fmtwhen": "fmt"}[cl.Kind]
+			short := map[string]string{"requires": "req", "ensures": "ens", "decreases": "dec", "fmtwhen": "fmt", "assumes": "asm"}[cl.Kind]
 			cl.GenName = fmt.Sprintf("vc__%s__%s__%d", short, c.ID, n)
 			n++
 			ret := "bool"
